@@ -97,4 +97,7 @@ theorem text_SessionData_clearTokenChunks_ok : Oidc.Shapes.Text_SessionData_clea
 theorem text_SessionData_Save_ok : Oidc.Shapes.Text_SessionData_Save := by unfold Oidc.Shapes.Text_SessionData_Save; rfl
 theorem text_SessionData_deleteStaleChunkCookies_ok : Oidc.Shapes.Text_SessionData_deleteStaleChunkCookies := by unfold Oidc.Shapes.Text_SessionData_deleteStaleChunkCookies; rfl
 
+/-! further obligations against the regenerated program text (`Oidc/Shapes.lean`): constructor wiring and URL builders -/
+theorem text_BuildLogoutURL_ok : Oidc.Shapes.Text_BuildLogoutURL := by unfold Oidc.Shapes.Text_BuildLogoutURL; rfl
+
 end Oidc.Props.C11
